@@ -12,7 +12,9 @@ import c07
 
 DOCS = ["", "x", "x\n", "\n", "\n\n", "a\nb", "a\nb\n", "# h\n\ntext TRIG\n", "<!-- pyml disable-next-line vpa001-->",
         "<!-- pyml disable-next-line vpa001-->\nTRIG\n", "- a\n- b TRIG\n\n> q\n", "```\ncode TRIG\n```\n", "tab\there\n", "é TRIG ü\n",
-        "a  \nb\\\nc\n", "[r]: /u\n\n[r] TRIG\n", "trailing spaces   \n\n\n\nend"]
+        "a  \nb\\\nc\n", "[r]: /u\n\n[r] TRIG\n", "trailing spaces   \n\n\n\nend",
+        # characters str.splitlines() treats as line ends but a file's readlines() does not
+        "first half\x0csecond half TRIG\nnext\n", "a\x0bb\nc\n", "a\x1cb TRIG\x1dc\x1ed\n", "a\x85b\nTRIG\n", "a\u2028b TRIG\u2029c\nd\n"]
 IDS = ["VPA001", "ZZZ999", "AAA000", "MDM500", "MD0999"[:5] + "9"]
 
 
